@@ -13,7 +13,10 @@ import (
 	"sync"
 	"sync/atomic"
 	"time"
+	"sort"
 	"unicode/utf8"
+
+	at "github.com/DanielSvub/anytype"
 
 	"verif/harness/jsonx"
 )
@@ -354,9 +357,65 @@ func checkFormat(ct *jsonx.CTree, how int, layout []jsonx.LayoutTok, full bool) 
 		if err != nil {
 			return fmt.Errorf("FormatString modified the container: %v", err)
 		}
+		// a change made through a nested container's own handle must show in the next FormatString
+		if child := firstChild(c); child != nil {
+			for _, n := range []int{2, 2, 7} {
+				jsonx.Format(c, n)
+			}
+			mutateChild(child)
+			after := jsonx.Str(c)
+			as, err := jsonx.StrictParse(after)
+			if err != nil {
+				return fmt.Errorf("String() after a nested change is not valid JSON: %v", err)
+			}
+			for _, n := range []int{2, 7, 0} {
+				f := jsonx.Format(c, n)
+				fs, err := jsonx.StrictParse(f)
+				if err != nil {
+					return fmt.Errorf("FormatString(%d) after a nested change is not valid JSON: %v: %q", n, err, f)
+				}
+				if err := sameRaw(fs, as, "$"); err != nil {
+					return fmt.Errorf("FormatString(%d) after a change made through a nested container's handle is not a re-layout of String() (%s): %v", n, after, err)
+				}
+				if want := jsonx.Render(fs, n); want != f {
+					return fmt.Errorf("FormatString(%d) after a nested change is not the canonical layout", n)
+				}
+			}
+		}
 		return nil
 	})
 	return text, err
+}
+
+func firstChild(c any) any {
+	switch v := c.(type) {
+	case at.List:
+		for i := 0; i < v.Count(); i++ {
+			switch v.TypeOf(i) {
+			case at.TypeList, at.TypeObject:
+				return v.Get(i)
+			}
+		}
+	case at.Object:
+		ks := v.Keys().StringSlice()
+		sort.Strings(ks)
+		for _, k := range ks {
+			switch v.TypeOf(k) {
+			case at.TypeList, at.TypeObject:
+				return v.Get(k)
+			}
+		}
+	}
+	return nil
+}
+
+func mutateChild(c any) {
+	switch v := c.(type) {
+	case at.List:
+		v.Add("added-later", 12345)
+	case at.Object:
+		v.Set("added-later", 12345)
+	}
 }
 
 func runSerCheck(check string, ct *jsonx.CTree, how int, layout []jsonx.LayoutTok, full bool) (string, error) {
@@ -583,6 +642,48 @@ func cmdSer(args []string) int {
 				reportT(ct, i%3, "random tree: "+ct.String(), text, err, *seed)
 			}
 		})
+	}
+	// phase 5: nesting chains deeper than any indent*level product the layout code may special-case, and a very
+	// large document followed by small ones (state kept between calls)
+	if st.nviol() == 0 {
+		chain := func(depth int, obj bool) *jsonx.CTree {
+			cur := &jsonx.CTree{Kind: 's', S: "leaf"}
+			for d := 0; d < depth; d++ {
+				if obj && d%2 == 0 {
+					cur = &jsonx.CTree{Kind: 'O', Keys: []string{"k", "z"}, Elems: []*jsonx.CTree{cur, {Kind: 'i', I: d}}}
+				} else {
+					cur = &jsonx.CTree{Kind: 'L', Elems: []*jsonx.CTree{{Kind: 'i', I: d}, cur}}
+				}
+			}
+			return cur
+		}
+		var seq []*jsonx.CTree
+		for _, d := range []int{8, 9, 10, 12, 17, 33} {
+			seq = append(seq, chain(d, false), chain(d, true))
+		}
+		big := &jsonx.CTree{Kind: 'L'}
+		for i := 0; i < 30000; i++ {
+			big.Elems = append(big.Elems, &jsonx.CTree{Kind: 'i', I: i})
+		}
+		bigO := &jsonx.CTree{Kind: 'O'}
+		for i := 0; i < 8000; i++ {
+			bigO.Keys = append(bigO.Keys, fmt.Sprintf("key-%d", i))
+			bigO.Elems = append(bigO.Elems, &jsonx.CTree{Kind: 's', S: "value"})
+		}
+		small := &jsonx.CTree{Kind: 'L', Elems: []*jsonx.CTree{{Kind: 'i', I: 1}, {Kind: 'O', Keys: []string{"a"}, Elems: []*jsonx.CTree{{Kind: 'z'}}}}}
+		seq = append(seq, big, small, small, bigO, small, big, chain(4, true), small)
+		for i, ct := range seq {
+			text, err := runSerCheck(*check, ct, i%3, nil, true)
+			atomic.AddInt64(&st.evals, 1)
+			if err != nil {
+				if len(text) > 300 {
+					text = text[:300] + "..."
+				}
+				desc := fmt.Sprintf("sequence item %d (nesting chains / very large documents followed by small ones)", i)
+				reportT(nil, i%3, desc, text, err, *seed)
+				break
+			}
+		}
 	}
 	return finishDocs(*prop, st, *out, *replayDir, map[string]any{
 		"tlc_documents": tlcDocs, "picks": *picks, "code_points": cpCount, "random_numbers": *floats, "deep_trees": *deep,
